@@ -124,15 +124,22 @@ def build_harness(variant="f64"):
     return rc == 0, out
 
 
-def run_both(lines, mode, variant="f64"):
+class HarnessTimeout(Exception):
+    pass
+
+
+def run_both(lines, mode, variant="f64", timeout=1200):
     """run the same command text through the harness and through the model"""
     text = "\n".join(lines) + "\n"
     hmode = "exact" if mode == "exact" else "float"
     mmode = {"exact": "exact", "float": "float", "f32": "f32"}[mode if variant != "f32" or mode == "exact" else "f32"]
-    pi = subprocess.run([harness_bin(variant), hmode], input=text, stdout=subprocess.PIPE, stderr=subprocess.PIPE,
-                        universal_newlines=True, timeout=1200)
     pm = subprocess.run([MODEL_BIN, mmode], input=text, stdout=subprocess.PIPE, stderr=subprocess.PIPE,
                         universal_newlines=True, timeout=1200)
+    try:
+        pi = subprocess.run([harness_bin(variant), hmode], input=text, stdout=subprocess.PIPE, stderr=subprocess.PIPE,
+                            universal_newlines=True, timeout=timeout)
+    except subprocess.TimeoutExpired:
+        raise HarnessTimeout()
     return pi.stdout.splitlines(), pm.stdout.splitlines(), pi.returncode, pm.returncode, pi.stderr[-500:], pm.stderr[-500:]
 
 
@@ -191,6 +198,125 @@ def lines_agree(a, b, mode, tol):
     return len(ta) == len(tb) and all(tok_close(x, y, tol) for x, y in zip(ta, tb))
 
 
+OPS_SHOWING_TENSOR = {"new", "flat", "zeros", "nest", "add", "sub", "mul", "div", "neg", "ln", "exp", "recip", "relu", "sigmoid",
+                      "softmax", "scale", "powf", "sum", "reshape", "axpy", "matmul", "conv", "cop", "lfwd", "fwd", "takegrad", "show"}
+
+
+def trflag(line):
+    m = re.search(r"tr=([01])", line)
+    return m.group(1) if m else "?"
+
+
+def kv(line, keys):
+    return " ".join("%s=%s" % (k, (re.search(r"\b%s=(\S+)" % k, line) or [None, "?"])[1]) for k in keys)
+
+
+def view_full(cmd, out):
+    return out
+
+
+def view_flags(cmd, out):
+    """C09: only tracking flags, gradient presence, stored-operand flags, sole ownership"""
+    w = cmd.split()[0]
+    if out in ("PANIC", "-", "BADCMD"):
+        return out
+    if w == "grad":
+        return "none" if out == "none" else "some tr=" + trflag(out)
+    if w == "takegrad":
+        return "some"
+    if w in OPS_SHOWING_TENSOR:
+        return "tr=" + trflag(out)
+    if w in ("start", "stop", "flags", "nokid"):
+        return out
+    if w == "probe":
+        return kv(out, ["tr", "keep", "kids"])
+    if w == "probekid":
+        return out if out == "nokid" else kv(out, ["tr", "keep"])
+    if w == "own":
+        return "own"
+    return None
+
+
+def view_shape(cmd, out):
+    """C03: dimensions of stored gradients (values are judged by the add/sub family, full view)"""
+    w = cmd.split()[0]
+    if out in ("PANIC", "-", "BADCMD"):
+        return out
+    if w == "grad":
+        return "none" if out == "none" else "dims " + out.split(" | ")[0]
+    if w == "snapshot":
+        return " ; ".join("%s g=%s" % (e.split("=")[0], ("none" if e.endswith("g=none") else e.split(" g=")[1].split(" | ")[0]))
+                          for e in out[5:].split(" ; ")) if out.startswith("snap ") else out
+    return None
+
+
+def view_cntpend(cmd, out):
+    """C10: counters and pending flags after passes; metamorphic accumulation lines"""
+    w = cmd.split()[0]
+    if out in ("PANIC", "-", "BADCMD"):
+        return out
+    if w == "probe":
+        return kv(out, ["cnt", "pend"])
+    if w == "probekid":
+        return out if out == "nokid" else kv(out, ["cnt", "pend"])
+    if w in ("sumgrad", "samegrad", "same", "lin"):
+        return out
+    return None
+
+
+def view_rc(cmd, out):
+    """C18: owner counts and sole-owner extraction"""
+    w = cmd.split()[0]
+    if out in ("PANIC", "-", "BADCMD"):
+        return out if w in ("own", "probe") else None
+    if w == "probe":
+        return kv(out, ["rc"])
+    if w == "own":
+        return "own"
+    return None
+
+
+def view_meta(cmd, out):
+    """C12 / C17: only the metamorphic relation lines (the implementation against itself)"""
+    w = cmd.split()[0]
+    if w in ("same", "samegrad", "lin", "sumgrad"):
+        return out
+    return None
+
+
+def view_log(cmd, out):
+    """C11: the invocation log of user closures, counters after the pass"""
+    w = cmd.split()[0]
+    if w == "log":
+        return out
+    if w == "probe":
+        return out if out in ("PANIC", "-") else kv(out, ["cnt", "pend"])
+    return None
+
+
+def view_none(cmd, out):
+    """C08: nothing but the harness's own shadow-copy verdict (`!!IMMUT`) is decisive"""
+    return None
+
+
+def view_update(cmd, out):
+    """C13: the parameters after an update, their gradients and flags"""
+    w = cmd.split()[0]
+    if out in ("PANIC", "-", "BADCMD"):
+        return out if w == "gdupdate" else None
+    if w == "gdupdate":
+        return out
+    if w == "probe":
+        return kv(out, ["tr", "keep", "kids"])
+    if w == "show" or w == "snapshot":
+        return out
+    return None
+
+
+VIEWS = {"full": view_full, "flags": view_flags, "shape": view_shape, "cntpend": view_cntpend, "rc": view_rc,
+         "meta": view_meta, "log": view_log, "none": view_none, "update": view_update}
+
+
 def split_spec(line):
     if " ## " in line:
         m, s = line.split(" ## ", 1)
@@ -198,8 +324,10 @@ def split_spec(line):
     return line, None
 
 
-def compare_case(cmds, impl, model, mode, tol, bits=50):
-    """returns list of findings for one case: (kind, cmd_index, impl_line, model_line, spec)"""
+def compare_case(cmds, impl, model, mode, tol, bits=50, view="full"):
+    """returns list of findings for one case: (kind, cmd_index, impl_line, model_line, spec).
+    Lines are compared through the property's view: what the view drops cannot raise an alarm."""
+    vf = VIEWS[view]
     out = []
     n = min(len(impl), len(model))
     if len(impl) != len(cmds) or len(model) != len(cmds):
@@ -217,18 +345,21 @@ def compare_case(cmds, impl, model, mode, tol, bits=50):
             # NaN / infinity: the program left the operations' domain; nothing is claimed there
             out.append(("inexact", i, il, ml, spec))
             break
-        if spec is not None and not lines_agree(il, spec, mode, tol):
-            out.append(("impl-vs-spec", i, il, ml, spec))
-        if not lines_agree(il, ml, mode, tol):
-            out.append(("impl-vs-model", i, il, ml, spec))
-        if spec is not None and not lines_agree(ml, spec, mode, tol):
-            out.append(("model-vs-spec", i, il, ml, spec))
+        vi, vm = vf(cmds[i], il), vf(cmds[i], ml)
+        vs = vf(cmds[i], spec) if spec is not None else None
+        if vi is not None and vm is not None:
+            if vs is not None and not lines_agree(vi, vs, mode, tol):
+                out.append(("impl-vs-spec", i, il, ml, spec))
+            if not lines_agree(vi, vm, mode, tol):
+                out.append(("impl-vs-model", i, il, ml, spec))
+            if vs is not None and not lines_agree(vm, vs, mode, tol):
+                out.append(("model-vs-spec", i, il, ml, spec))
         if il == "PANIC" or ml == "PANIC":
             break
     return out
 
 
-def run_cases(cases, mode, variant, tol):
+def run_cases(cases, mode, variant, tol, view="full"):
     """run a batch of cases in one process pair; returns per-case findings"""
     lines = []
     spans = []
@@ -237,7 +368,14 @@ def run_cases(cases, mode, variant, tol):
         start = len(lines)
         lines.extend(c.lines)
         spans.append((start, len(lines)))
-    impl, model, rci, rcm, ei, em = run_both(lines, mode, variant)
+    try:
+        impl, model, rci, rcm, ei, em = run_both(lines, mode, variant, timeout=(20 if len(cases) == 1 else 60))
+    except HarnessTimeout:
+        # the implementation did not finish although the model did: find the case
+        if len(cases) == 1:
+            return [[("timeout", len(cases[0].lines) - 1, "implementation still running after 20 s", "model finished", None)]]
+        half = len(cases) // 2
+        return run_cases(cases[:half], mode, variant, tol, view) + run_cases(cases[half:], mode, variant, tol, view)
     results = []
     crashed = (rci != 0 or rcm != 0 or len(impl) != len(lines) or len(model) != len(lines))
     if crashed:
@@ -245,31 +383,44 @@ def run_cases(cases, mode, variant, tol):
         if len(cases) == 1:
             c = cases[0]
             i1, m1 = impl[1:], model[1:]
-            f = compare_case(c.lines, i1, m1, mode, tol, 21 if variant == "f32" else 50)
+            f = compare_case(c.lines, i1, m1, mode, tol, 21 if variant == "f32" else 50, view)
             if rci != 0 or rcm != 0:
                 f.append(("crash", max(0, min(len(i1), len(m1)) - 1), "harness rc=%d %s" % (rci, ei), "model rc=%d %s" % (rcm, em), None))
             return [f]
         out = []
         for c in cases:
-            out.extend(run_cases([c], mode, variant, tol))
+            out.extend(run_cases([c], mode, variant, tol, view))
         return out
     for c, (s, e) in zip(cases, spans):
-        results.append(compare_case(c.lines, impl[s:e], model[s:e], mode, tol, 21 if variant == "f32" else 50))
+        results.append(compare_case(c.lines, impl[s:e], model[s:e], mode, tol, 21 if variant == "f32" else 50, view))
     return results
 
 
-def shrink(case, mode, variant, tol, kind):
-    """greedy line removal keeping a finding of the same kind"""
+def shrink(case, mode, variant, tol, kind, view="full", orig=None):
+    """greedy line removal keeping a finding of the same kind on the same command, with the same
+    panicked / did-not-panic status on both sides (so that removing a definition does not count)"""
     lines = list(case.lines)
-    budget = 60
+    target = case.lines[orig[1]] if orig is not None and orig[1] < len(case.lines) else None
+    status = (orig[2] == "PANIC", orig[3] == "PANIC") if orig is not None else None
+
+    def keeps(f, trial):
+        for x in f:
+            if x[0] != kind:
+                continue
+            if target is None:
+                return True
+            if x[1] < len(trial) and trial[x[1]] == target and (x[2] == "PANIC", x[3] == "PANIC") == status:
+                return True
+        return False
+    budget = 80
     i = len(lines) - 1
     while i >= 0 and budget > 0:
         trial = lines[:i] + lines[i + 1:]
-        if trial:
+        if trial and (target is None or lines[i] != target):
             budget -= 1
             c2 = gen.Case(trial, case.key, case.tags, case.mode)
-            f = run_cases([c2], mode, variant, tol)[0]
-            if any(x[0] == kind for x in f):
+            f = run_cases([c2], mode, variant, tol, view)[0]
+            if keeps(f, trial):
                 lines = trial
         i -= 1
     return lines
@@ -409,14 +560,41 @@ def main():
         if not model_ok:
             corr[name] = stats
             continue
+        view = fam.get("view", "full")
+        kinds_ok = fam.get("kinds")          # None = every kind is decisive
+        stats["view"] = view
         chunks = [cases[i:i + 40] for i in range(0, len(cases), 40)]
         with ThreadPoolExecutor(max_workers=min(16, max(1, len(chunks)))) as ex:
-            results = list(ex.map(lambda ch: run_cases(ch, mode, variant, tol), chunks))
+            results = list(ex.map(lambda ch: run_cases(ch, mode, variant, tol, view), chunks))
         flat = [r for rs in results for r in rs]
+        if fam.get("baseline_variant"):
+            # a defect that shows in the reference build as well is not specific to this build:
+            # only findings that the reference build does not share count here
+            bv = fam["baseline_variant"]
+            btol = families.TOL[mode if mode != "f32" else "float"]
+            bmode = "float" if mode == "f32" else mode
+            bcases = cases
+            if mode == "f32":
+                bcases = None     # f32 bit patterns cannot be replayed on the f64 build
+            if bcases is not None:
+                with ThreadPoolExecutor(max_workers=min(16, max(1, len(chunks)))) as ex:
+                    bres = [r for rs in ex.map(lambda ch: run_cases(ch, bmode, bv, btol, view), chunks) for r in rs]
+                filtered = []
+                shared = 0
+                for fs, bs in zip(flat, bres):
+                    bset = {(x[0], x[1]) for x in bs}
+                    keep = [x for x in fs if x[0] == "inexact" or (x[0], x[1]) not in bset]
+                    shared += len(fs) - len(keep)
+                    filtered.append(keep)
+                flat = filtered
+                stats["findings_shared_with_reference_build"] = shared
         first = {}
         for c, findings in zip(cases, flat):
             for f in findings:
                 k = f[0]
+                if kinds_ok is not None and k not in kinds_ok and k != "inexact":
+                    stats["nondecisive_findings"] = stats.get("nondecisive_findings", 0) + 1
+                    continue
                 if k == "inexact":
                     stats["inexact_discarded"] += 1
                     continue
@@ -437,7 +615,7 @@ def main():
             samples.append({"family": name, "mode": mode, "commands": c.lines[:12], "impl": impl[1:13], "model": model[1:13]})
         corr[name] = stats
         # decide per family
-        order = ["impl-vs-spec", "immut", "impl-vs-model", "crash", "length", "model-vs-spec"]
+        order = ["impl-vs-spec", "immut", "impl-vs-model", "timeout", "crash", "length", "model-vs-spec"]
         for k in order:
             if k not in first:
                 continue
@@ -445,12 +623,12 @@ def main():
             if k == "model-vs-spec":
                 # my own model and spec disagree: the theorem's statement is not what I believe; not a
                 # finding about the code, but the property is not shown to hold on that input
-                lines = shrink(c, mode, variant, tol, k)
+                lines = shrink(c, mode, variant, tol, k, view, f)
                 path = write_replay(pid, name, mode, variant, lines, f, "model and specification disagree (theorem statement vs executable spec)")
                 violations.append((path, " no-failing-input-found"))
                 break
-            lines = shrink(c, mode, variant, tol, k)
-            f2 = [x for x in run_cases([gen.Case(lines, c.key, c.tags, c.mode)], mode, variant, tol)[0] if x[0] == k]
+            lines = shrink(c, mode, variant, tol, k, view, f) if k != "timeout" else list(c.lines)
+            f2 = [x for x in run_cases([gen.Case(lines, c.key, c.tags, c.mode)], mode, variant, tol, view)[0] if x[0] == k]
             f2 = f2[0] if f2 else f
             if k in ("impl-vs-spec", "immut"):
                 path = write_replay(pid, name, mode, variant, lines, f2,
